@@ -58,6 +58,13 @@ func (x *Exec) invoke(st *State, c *ssa.CallCommon, args []Val, fnval Val, ret s
 		return
 	}
 	// dynamic call through a function value
+	if fnval.Fn != nil && fnval.Fn.Builtin == "cancel" {
+		ctx := fnval.Fn.Bindings[0]
+		arr := st.heapGet("ghost.ctxcancelled", ArrSort(SBool))
+		st.heapSetAt("ghost.ctxcancelled", Store(arr, ctx.T(), TTrue), nil)
+		x.setResult(st, ret, nil)
+		return
+	}
 	if fnval.Fn != nil {
 		x.dispatch(st, fnval.Fn.Fn, args, fnval.Fn, ret, site)
 		return
@@ -216,7 +223,7 @@ func externalPolicy(key string) string {
 		"fmt.Sprint", "fmt.Errorf", "strconv.",
 	} {
 		if strings.HasPrefix(key, p) {
-			if strings.Contains(key, "logs.") {
+			if strings.Contains(key, "logs.") || strings.Contains(key, "prometheus") {
 				return "nonnil"
 			}
 			return "any"
@@ -288,6 +295,17 @@ func (x *Exec) applyContract(st *State, spec *FuncSpec, fn *ssa.Function, args [
 	}
 	x.checkCalleeLocks(st, fn, spec.Key)
 	vars := x.specParams(spec, fn, args)
+	if fn != nil && len(fn.FreeVars) > 0 && x.pendingClosure != nil && x.pendingClosure.Fn == fn {
+		for i, fv := range fn.FreeVars {
+			b := x.pendingClosure.Bindings[i]
+			if capturedByRef(fn, fv) {
+				st.requireNonNil(b.T(), "captured:"+fv.Name())
+				vars[fv.Name()] = st.load(b)
+			} else {
+				vars[fv.Name()] = b
+			}
+		}
+	}
 	env := x.newEnv(st, spec, vars)
 	// lets bind pre-state values: evaluate them now
 	preLets := map[string]Val{}
